@@ -2,6 +2,7 @@ package trcgen
 
 import (
 	"fmt"
+	"sort"
 
 	"verifharness/internal/vgen"
 )
@@ -261,7 +262,7 @@ func CloneTRC(t TRC) TRC {
 }
 
 // TRCMutations is the number of single payload mutations MutateTRC knows.
-const TRCMutations = 30
+const TRCMutations = 32
 
 func classOf(c Cert) int {
 	if len(c.EKUs) > 0 {
@@ -469,6 +470,36 @@ func MutateTRC(r *vgen.Rand, t TRC, k int) (TRC, string) {
 	case 29:
 		t.Auth = append(t.Auth, asNum(90))
 		what = "ok-authoritative-not-core"
+	case 30, 31:
+		// issuer+serial collision among three or four certificates that all share the serial
+		// number: two with the same issuer, the other(s) with different issuers, in every
+		// relative order (30: the different issuer between the two equal ones)
+		n := 3
+		if k == 31 && len(t.Certs) >= 4 && r.Bool() {
+			n = 4
+		}
+		perm := make([]int, len(t.Certs))
+		for i := range perm {
+			perm[i] = i
+		}
+		vgen.Shuffle(r, perm)
+		idx := append([]int{}, perm[:n]...)
+		sort.Ints(idx)
+		donor := t.Certs[pickClass(r, t, 3)] // a root: its issuer name carries an ISD-AS
+		first, second := 0, n-1                // positions (within idx) of the two colliding certificates
+		if k == 31 {
+			first = r.Intn(n)
+			second = (first + 1 + r.Intn(n-1)) % n
+		}
+		for x, i := range idx {
+			t.Certs[i].Serial = 4711
+			if x == first || x == second {
+				t.Certs[i].Issuer = donor.Issuer
+			} else {
+				t.Certs[i].Issuer = Name{ID: 600 + x, IA: donor.Issuer.IA}
+			}
+		}
+		what = fmt.Sprintf("duplicate-issuer-serial-among-%d-at-%d-%d", n, first, second)
 	}
 	return t, what
 }
